@@ -2,7 +2,7 @@
    combinations model and the independent-set model; truth-table / product
    decisions evaluated on the energies the implementation reported. *)
 From Coq Require Import List ZArith QArith Qcanon Bool Arith.
-From Dimod Require Import Base.Util Model.Poly Model.Comb Gen.Gen_Gates Model.Gates Model.Knap Model.MultCircuit Model.Qap Model.Magic Model.Sat.
+From Dimod Require Import Base.Util Model.Poly Model.Comb Gen.Gen_Gates Gen.Gen_Combinations Model.Gates Model.Knap Model.MultCircuit Model.Qap Model.Magic Model.Sat.
 Import ListNotations.
 Open Scope Qc_scope.
 
@@ -25,7 +25,8 @@ Inductive case :=
 | CMult (na nb np : nat) (rows : list (list bool * Qc))
 (* the BQM of multiplication_circuit(na, nb); variable number k is the wire names[k] *)
 | CMultWire (na nb : nat) (names : list wire) (bqm : obs)
-| CComb (n : nat) (k : Z) (s : Qc) (rows : list (list bool * Qc))
+(* binobs: the coefficients of the BINARY model (labels = positions), strength = sn / sd *)
+| CComb (n : nat) (k : Z) (s : Qc) (sn : Z) (sd : positive) (binobs : option obs) (rows : list (list bool * Qc))
 | CMwis (s : option Qc) (mult : Qc) (edges : list (label * label)) (nodes : list (label * Qc))
         (n : nat) (bqm : obs)
 | CIs (edges : list (label * label)) (n : nat) (bqm : obs)
@@ -107,8 +108,19 @@ Definition check (c : case) : bool :=
       let gs := circuit na nb in
       forallb (fun g => forallb (fun w => wmem w names) (inst_inputs g ++ inst_outputs g)) gs
       && poly_coeff_eqb (length names) (circuit_poly (index_of names) gs) (obs_poly bqm)
-  | CComb n k s rows =>
-      rows_complete n rows
+  | CComb n k s sn sd binobs rows =>
+      let d := z2q (Zpos sd) in
+      Qc_eqb (s * d) (z2q sn)
+      (* the coefficient rule translated from the source (Gen_Combinations.v), cleared of the denominator *)
+      && match binobs with
+         | None => true
+         | Some o =>
+             Qc_eqb (o_off o * d) (z2q (comb_offset sn k))
+             && forallb (fun v => Qc_eqb (lin_coeff (o_lin o) v * d) (z2q (comb_lbias sn k))) (seq 0 n)
+             && forallb (fun u => forallb (fun v => Qc_eqb (quad_coeff (o_quad o) u v * d) (z2q (comb_qbias sn k)))
+                                    (seq 0 u)) (seq 0 n)
+         end
+      && rows_complete n rows
       && forallb (fun r => Qc_eqb (snd r) (s * z2q (combinations_energy k (fst r)))) rows
   | CMwis s mult edges nodes n bqm =>
       let ws := effective_weights edges nodes in
